@@ -86,8 +86,9 @@ func (d DataSpec) Bytes() []byte {
 				b = append(b, r.Bytes(1+r.Intn(40))...)
 			}
 		}
-	case "fib": // symbol counts 1,2,3,5,8,... (shuffled): forces code lengths beyond 15 bits (from 16 symbols on; with
-		// fastgo's code-length generator the series 1,1,2,3,... does NOT: its lengths stay near half the optimal depth)
+	case "fib": // symbol counts 1,2,3,5,8,... (shuffled): forces code lengths beyond 15 bits from 16 symbols on. (The series
+		// 1,1,2,3,... does NOT with fastgo: with end-of-block it ties at every merge and fastgo's generator resolves
+		// ties towards the bushy optimal tree, depth about k/2.)
 		k := d.P1
 		if k < 2 {
 			k = 30
